@@ -209,7 +209,7 @@ fn judge_pk(b: &[u8], st: &mut Stats) -> Result<(), String> {
   Ok(())
 }
 
-fn judge_proof(b: &[u8], st: &mut Stats) -> Result<(), String> {
+pub fn judge_proof(b: &[u8], st: &mut Stats) -> Result<(), String> {
   st.evals(1);
   let got = no_panic(|| ProofDLEQ::load_from_bincode(b)).map_err(|p| format!("proof load panicked: {p}"))?;
   if b.len() > MAX_SERIALIZED_PROOF_SIZE {
@@ -344,7 +344,7 @@ fn bytes_oracle(c: &BytesCase, st: &mut Stats) -> Result<(), String> {
 }
 
 /// like judge_pk but silent on bincode's trailing-bytes policy (not fixed by the property)
-fn judge_pk_with_trailing(b: &[u8], st: &mut Stats) -> Result<(), String> {
+pub fn judge_pk_with_trailing(b: &[u8], st: &mut Stats) -> Result<(), String> {
   match PkModel::decode(b) {
     Ok((_, used)) if used < b.len() && b.len() <= MAX_SERIALIZED_PK_SIZE => {
       st.evals(1);
@@ -365,7 +365,7 @@ fn judge_pk_with_trailing(b: &[u8], st: &mut Stats) -> Result<(), String> {
   }
 }
 
-fn judge_proof_lenient(b: &[u8], st: &mut Stats) -> Result<(), String> {
+pub fn judge_proof_lenient(b: &[u8], st: &mut Stats) -> Result<(), String> {
   if b.len() > 64 && b.len() <= MAX_SERIALIZED_PROOF_SIZE {
     return Ok(());
   }
@@ -457,6 +457,8 @@ pub fn property() -> Property {
       ),
       prop_sub("bytes", 4000, 100_000, bytes_strat, bytes_oracle),
       prop_sub("json", 4000, 60_000, json_strat, json_oracle),
+      crate::fuzzentry::fuzz_sub("fuzzbytes_ppoprf", "ppoprf", "C15", 4000, 80000),
+      crate::fuzzentry::artefact_sub("artefact_ppoprf", "ppoprf", "C15"),
     ],
   }
 }
